@@ -164,13 +164,16 @@ func presetFrame(name string) []byte {
 	switch name {
 	case "bad-credential":
 		// Authentication with an unsupported credential type
-		cred := item(0x420023, 0x01, append(item(0x420024, 0x05, []byte{0, 0, 0, 0x99}, 4), item(0x420025, 0x01, nil, 0)...), 32)
+		credInner := append(item(0x420024, 0x05, []byte{0, 0, 0, 0x99}, 4), item(0x420025, 0x01, nil, 0)...)
+		cred := item(0x420023, 0x01, credInner, len(credInner))
 		auth := item(0x42000C, 0x01, cred, len(cred))
-		pv := item(0x420069, 0x01, append(item(0x42006A, 0x02, []byte{0, 0, 0, 1}, 4), item(0x42006B, 0x02, []byte{0, 0, 0, 4}, 4)...), 32)
+		pvInner := append(item(0x42006A, 0x02, []byte{0, 0, 0, 1}, 4), item(0x42006B, 0x02, []byte{0, 0, 0, 4}, 4)...)
+		pv := item(0x420069, 0x01, pvInner, len(pvInner))
 		hdr := append(append([]byte{}, pv...), auth...)
 		hdr = append(hdr, item(0x42000D, 0x02, []byte{0, 0, 0, 1}, 4)...)
 		h := item(0x420077, 0x01, hdr, len(hdr))
-		bi := item(0x42000F, 0x01, item(0x42005C, 0x05, []byte{0, 0, 0, 0x1E}, 4), 16)
+		op := item(0x42005C, 0x05, []byte{0, 0, 0, 0x1E}, 4)
+		bi := item(0x42000F, 0x01, op, len(op))
 		return wrap(append(h, bi...))
 	case "bad-enum-type":
 		// operation encoded as an integer instead of an enumeration
@@ -606,3 +609,7 @@ func init() {
 		Assumptions: []string{"whether a frame is well-formed / correctly framed but undecodable / decoder-panicking is decided by the library's own decoder under recover, outside the simulation", "obligations are void on connections broken by the client or by an injected network fault", "rewriter is semantics-preserving"},
 	})
 }
+
+// exported for ad-hoc probes
+func PresetFrame(n string) []byte { return presetFrame(n) }
+func Classify(f []byte) string    { return classify(f) }
